@@ -13,21 +13,22 @@
 /// The binary crate's modules, compiled in UNCHANGED from /repo (mirrors `main.rs`'s `mod` list
 /// for the modules that do not depend on items defined in `main.rs` itself).
 pub mod cli {
-    #[path = "/repo/src/bin/copia/plan.rs"]
+    #[path = "/verif/.build/repo/src/bin/copia/plan.rs"]
     pub mod plan;
-    #[path = "/repo/src/bin/copia/reconcile.rs"]
+    #[path = "/verif/.build/repo/src/bin/copia/reconcile.rs"]
     pub mod reconcile;
-    #[path = "/repo/src/bin/copia/transfer.rs"]
+    #[path = "/verif/.build/repo/src/bin/copia/transfer.rs"]
     pub mod transfer;
-    #[path = "/repo/src/bin/copia/meta.rs"]
+    #[path = "/verif/.build/repo/src/bin/copia/meta.rs"]
     pub mod meta;
-    #[path = "/repo/src/bin/copia/wire.rs"]
+    #[path = "/verif/.build/repo/src/bin/copia/wire.rs"]
     pub mod wire;
-    #[path = "/repo/src/bin/copia/archive.rs"]
+    #[path = "/verif/.build/repo/src/bin/copia/archive.rs"]
     pub mod archive;
 }
 
 mod util;
+mod c17;
 mod c18;
 
 use std::path::PathBuf;
@@ -47,6 +48,7 @@ fn main() {
     std::panic::set_hook(Box::new(|_| {}));
     let mut w = util::Out::new(&out);
     match prop {
+        "C17" => c17::run(&mut w, thorough, seed),
         "C18" => c18::run(&mut w, thorough, seed),
         other => {
             eprintln!("unknown property {other}");
